@@ -92,7 +92,18 @@ type Explorer struct {
 }
 
 // Worker owns a solver process and runs paths.
+type tempRegion struct {
+	r     *region
+	cells []*Value
+	objs  []interface{}
+}
+
 type Worker struct {
+	regionCache map[string][]*cachedRegion
+	frozen      map[*Value]frozenRef
+	frozenObj   map[interface{}]frozenRef
+	tempRegions []tempRegion // digest-frozen regions of the current path (never reused)
+	exportCache map[*region]*exportCache
 	notes  map[string]map[string]bool // worker-local bookkeeping, merged into the explorer at the end
 	ex     *Explorer
 	solver *Solver
@@ -435,6 +446,21 @@ func (w *Worker) runPath(prefix []int) (end *PathEnd, m *Machine) {
 	w.decls = nil
 	w.declSet = map[string]bool{}
 	w.solver.BeginPath()
+	w.recycleRegions()
+	for _, t := range w.tempRegions {
+		for _, c := range t.cells {
+			delete(w.frozen, c)
+		}
+		for _, o := range t.objs {
+			delete(w.frozenObj, o)
+		}
+	}
+	w.tempRegions = nil
+	for r := range w.exportCache {
+		if r.dirty {
+			delete(w.exportCache, r)
+		}
+	}
 	m = newMachine(w)
 	defer func() {
 		if r := recover(); r != nil {
